@@ -427,16 +427,15 @@ theorem prod_le_one (path : List PathE) : ∀ m : Nat, 1 ≤ m → (∀ e ∈ pa
 /-! ### the statements for `occurs (sites p)` -/
 
 theorem occurs_sites (p : Particle) (hd : (names p).Nodup) :
-    occurs (sites p) = some ((sites p).map processAttrPath) :=
+    occurs (sites p) = (sites p).map processAttrPath :=
   occurs_nodup _ (by rw [sites_names]; exact hd)
 
 /-- every field of `occurs (sites p)` comes from a raw site through `processAttrPath` -/
-theorem mem_occurs_sites {p : Particle} (hd : (names p).Nodup) {ss : List Site}
-    (h : occurs (sites p) = some ss) {s : Site} (hs : s ∈ ss) :
+theorem mem_occurs_sites {p : Particle} (hd : (names p).Nodup) {s : Site}
+    (hs : s ∈ occurs (sites p)) :
     ∃ s' ∈ (sitesAux p [] 1).1, s.name = s'.name ∧ s.max = s'.max * pathMaxProd s'.path ∧
       s.min = (processAttrPath s').min := by
-  rw [occurs_sites p hd, Option.some.injEq] at h
-  subst h
+  rw [occurs_sites p hd] at hs
   obtain ⟨t, ht, rfl⟩ := List.mem_map.1 hs
   rw [sites_eq] at ht
   obtain ⟨s', hs', i, rfl⟩ := mem_withIndex ht
@@ -446,9 +445,9 @@ theorem mem_occurs_sites {p : Particle} (hd : (names p).Nodup) {ss : List Site}
   · rw [processAttrPath_min, processAttrPath_min]
 
 theorem nonlist_sound_core (p : Particle) (hd : (names p).Nodup) (w : List Str) (hw : Matches p w)
-    (ss : List Site) (h : occurs (sites p) = some ss) (s : Site) (hs : s ∈ ss)
+    (s : Site) (hs : s ∈ occurs (sites p))
     (hl : s.isList = false) : w.count s.name ≤ 1 := by
-  obtain ⟨s', hs', hname, hmax, _⟩ := mem_occurs_sites hd h hs
+  obtain ⟨s', hs', hname, hmax, _⟩ := mem_occurs_sites hd hs
   obtain ⟨q, hq, hbound⟩ := bound_aux p [] 1 s' hs'
   rw [List.nil_append] at hq
   subst hq
@@ -460,9 +459,9 @@ theorem nonlist_sound_core (p : Particle) (hd : (names p).Nodup) (w : List Str) 
 
 theorem required_sound_core (p : Particle) (hd : (names p).Nodup) (hwf : wf p = true)
     (w : List Str) (hw : Matches p w)
-    (ss : List Site) (h : occurs (sites p) = some ss) (s : Site) (hs : s ∈ ss)
+    (s : Site) (hs : s ∈ occurs (sites p))
     (hr : 1 ≤ s.min) (hl : s.isList = false) : w.count s.name = 1 := by
-  obtain ⟨s', hs', hname, hmax, hmin⟩ := mem_occurs_sites hd h hs
+  obtain ⟨s', hs', hname, hmax, hmin⟩ := mem_occurs_sites hd hs
   obtain ⟨q, hq, hone⟩ := once_aux p [] 1 s' hs'
   rw [List.nil_append] at hq
   subst hq
